@@ -7,6 +7,21 @@ pub mod knobs {
     std::thread_local! {
         static LENIENT_QUOTIENT: Cell<bool> = const { Cell::new(false) };
         static QUOTIENT_PERTURB: Cell<Option<(usize, u64)>> = const { Cell::new(None) };
+        static CTL_BALANCE: Cell<Option<u8>> = const { Cell::new(None) };
+    }
+
+    /// Adversarial cross-table-lookup prover: after the running sums of one (lookup, challenge) pair
+    /// are computed, one whole Z column is shifted by a constant so that the first-row values balance
+    /// (sum over looking tables == looked table) whatever the traces contain. `Some(0)` shifts the Z
+    /// of the first looking table, `Some(1)` the Z of the looked table. Helper columns and every
+    /// row-to-row difference stay honest; only the constraints that anchor Z can notice.
+    pub fn set_ctl_balance(v: Option<u8>) {
+        CTL_BALANCE.with(|c| c.set(v));
+    }
+
+    /// Current value of the CTL balancing switch on this thread.
+    pub fn ctl_balance() -> Option<u8> {
+        CTL_BALANCE.with(|c| c.get())
     }
 
     /// When set to `(index, delta)`, the prover adds `delta` to coefficient 0 of the quotient
